@@ -7,6 +7,7 @@ import Pysmi.Model.Searcher
 import Pysmi.Model.Reader
 import Pysmi.Model.Oid
 import Pysmi.Model.Symtab
+import Pysmi.Model.Syntax
 /-!
 Line-protocol driver: one JSON object per input line, one JSON value per output line.
 Imports only the import-free model files and `Lean.Data.Json`.
@@ -393,6 +394,96 @@ def opSymreg (j : Json) : Except String Json := do
   | .error (.unknownParents ns) => return Json.mkObj [("unknown", .arr (ns.map (fun (x : Nat) => (x : Json))).toArray)]
 end Sy
 
+/-! ### ops: ranges / basetype / defval -/
+namespace Sx
+open Pysmi.Syntax
+
+def lit (j : Json) : Except String Lit :=
+  match j with
+  | .arr #[.str "hex", .str s] => pure (.hex s.toList)
+  | .arr #[.str "bin", .str s] => pure (.bin s.toList)
+  | v => do return .dec (← v.getInt?)
+
+def alt (j : Json) : Except String Alt := do
+  match (← j.getArr?).toList with
+  | [a] => return .single (← lit a)
+  | [a, b] => return .range (← lit a) (← lit b)
+  | _ => throw "bad alternative"
+
+def jInt (i : Int) : Json := .num (Lean.JsonNumber.fromInt i)
+
+def opRanges (j : Json) : Except String Json := do
+  let alts ← getList alt (← j.getObjVal? "alts")
+  match genRanges alts with
+  | .ok l => return .arr (l.map (fun p => Json.arr #[jInt p.1, jInt p.2])).toArray
+  | .error e => return .str (match e with | .emptyHex => "emptyhex" | .emptyBin => "emptybin" | _ => "error")
+
+def subList (j : Json) : Except String (Option (List (Name × Int))) :=
+  match j with
+  | .null => pure none
+  | v => do
+    let l ← getList (fun p => do
+      match (← p.getArr?).toList with
+      | [n, k] => return (← n.getNat?, ← k.getInt?)
+      | _ => throw "bad sub item") v
+    return some l
+
+/-- {"op":"basetype","base":[ids],"empty":id,"fuel":f,"types":[[module,name,base,bmodule,sub|null]…],"queries":[[name,module]…]} -/
+def opBasetype (j : Json) : Except String Json := do
+  let bases ← getList (fun x => x.getNat?) (← j.getObjVal? "base")
+  let empty ← (← j.getObjVal? "empty").getNat?
+  let fuel ← (← j.getObjVal? "fuel").getNat?
+  let rows ← getList (fun r => do
+    match (← r.getArr?).toList with
+    | [m, n, b, bm, sub] => return (← m.getNat?, ← n.getNat?, ({ base := ← b.getNat?, module := ← bm.getNat?, sub := ← subList sub } : TypeInfo))
+    | _ => throw "bad type row") (← j.getObjVal? "types")
+  let T : Types := fun m n => (rows.find? (fun r => r.1 == m && r.2.1 == n)).map (·.2.2)
+  let qs ← getList (fun q => do
+    match (← q.getArr?).toList with
+    | [n, m] => return (← n.getNat?, ← m.getNat?)
+    | _ => throw "bad query") (← j.getObjVal? "queries")
+  return .arr (qs.map (fun q =>
+    match getBaseType (fun b => bases.contains b) empty T fuel q.1 q.2 with
+    | .ok (b, sub) => Json.arr #[b, match sub with
+        | none => .null
+        | some l => .arr (l.map (fun p => Json.arr #[p.1, jInt p.2])).toArray]
+    | .error .noSymbol => .str "nosymbol"
+    | .error .unknownType => .str "unknowntype"
+    | .error _ => .str "fuel")).toArray
+
+def defval (j : Json) : Except String DefVal :=
+  match j with
+  | .arr #[.str "num", v] => do return .num (← v.getInt?)
+  | .arr #[.str "hex", .str s] => pure (.hex s.toList)
+  | .arr #[.str "bin", .str s] => pure (.bin s.toList)
+  | .arr #[.str "str", .str s] => pure (.str s.toList)
+  | .arr #[.str "label", n] => do return .label (← n.getNat?)
+  | .arr #[.str "bits", ns] => do return .bits (← getList (fun x => x.getNat?) ns)
+  | _ => throw "bad defval"
+
+def jEmitted : Emitted → Json
+  | .nothing => .str "nothing"
+  | .basetypeOnly => .str "basetypeonly"
+  | .decimal v => .arr #[.str "decimal", jInt v]
+  | .hexOfInt v => .arr #[.str "hexofint", v]
+  | .binOfInt v => .arr #[.str "binofint", v]
+  | .hexDigits ds => .arr #[.str "hexdigits", .str (String.ofList ds)]
+  | .hexOfBin none => .arr #[.str "hexofbin", .null]
+  | .hexOfBin (some (w, v)) => .arr #[.str "hexofbin", w, v]
+  | .string s => .arr #[.str "string", .str (String.ofList s)]
+  | .enum n => .arr #[.str "enum", n]
+  | .bitsVal bs => .arr #[.str "bits", .arr (bs.map (fun p => Json.arr #[p.1, jInt p.2])).toArray]
+  | .oidOf n => .arr #[.str "oid", n]
+  | .semanticError => .str "semanticerror"
+
+def opDefval (j : Json) : Except String Json := do
+  let b (n : String) := do (← j.getObjVal? n).getBool?
+  let enumOf ← subList (← j.getObjVal? "enum")
+  let known ← getList (fun x => x.getNat?) (← j.getObjVal? "known")
+  let dv ← defval (← j.getObjVal? "defval")
+  return jEmitted (genDefVal (← b "isInt") (← b "isOid") (← b "isBits") enumOf (fun n => known.contains n) dv)
+end Sx
+
 def handle (j : Json) : Except String Json := do
   let op ← (← j.getObjVal? "op").getStr?
   match op with
@@ -406,6 +497,9 @@ def handle (j : Json) : Except String Json := do
   | "urlkind" => Rd.opUrlKind j
   | "oid" => Sy.opOid j
   | "symreg" => Sy.opSymreg j
+  | "ranges" => Sx.opRanges j
+  | "basetype" => Sx.opBasetype j
+  | "defval" => Sx.opDefval j
   | "put2" => Wr.opPut2 j
   | _ => throw s!"unknown op {op}"
 
